@@ -258,7 +258,7 @@ int readSmodels(std::istream& in, AbstractProgram& out, ErrorHandler err, const 
 /////////////////////////////////////////////////////////////////////////////////////////
 namespace {
 	struct Atom     { template <class T> Atom_t operator()(T x) const { return atom(x); } };
-	struct SmWeight { uint32_t operator()(const WeightLit_t& x) const { return static_cast<unsigned>(x.weight >= 0 ? x.weight : -x.weight); } };
+	struct SmWeight { uint32_t operator()(const WeightLit_t& x) const { return x.weight >= 0 ? static_cast<uint32_t>(x.weight) : 0u - static_cast<uint32_t>(x.weight); } };
 	inline Lit_t smLit(const WeightLit_t& x) { return x.weight >= 0 ? x.lit : -x.lit; }
 	inline Lit_t smLit(Lit_t x)              { return x; }
 	template <class T>
